@@ -17,8 +17,10 @@ def _region(af: AppFlow):
     """Top-level statements from the first protected try to the render try."""
     body = af.func.node.body
     first = None
+    # the first protected region is the top-level try that holds the request loops
+    loops = set(id(lp) for lp in af.req_loops)
     for i, s in enumerate(body):
-        if isinstance(s, ast.Try) and any(isinstance(x, ast.Compare) and any(is_self_attr(c, '_META_METHODS') for c in x.comparators) for x in walk_self(s)):
+        if isinstance(s, ast.Try) and any(id(x) in loops for x in walk_self(s)):
             first = i
             break
     last = None
@@ -222,6 +224,38 @@ def _discipline(run, qual):
         run.check(ok, '%s: a failing process_response does not skip the remaining ones (handler is inside the loop)' % tag, f,
                   cfg.node(nid).ast, where='%s:%s' % (f.file, cfg.node(nid).lineno))
 
+    # dependent mode: every component's response method is queued, also for the
+    # components AFTER one that completed the response (only an exception ends
+    # the walk early): the loop that queues has no normal exit but exhaustion
+    push_nodes = set(af.nodes_labelled('PUSH_HEAD')) | set(af.nodes_labelled('PUSH_OTHER'))
+    for lp in af.req_loops:
+        inside = nodes_within(cfg, [lp])
+        if not (inside & push_nodes):
+            continue
+        early = []
+        live = {n.id for n in cfg.live_nodes()}
+
+        def exits(stmts, in_nested=False):
+            for st in stmts:
+                if isinstance(st, ast.Return) or (isinstance(st, ast.Break) and not in_nested):
+                    if any(i in live for i in cfg.nodes_for(st)):
+                        early.append((sorted(cfg.nodes_for(st))[0], None, 'break'))
+                for fld in ('body', 'orelse', 'finalbody', 'handlers'):
+                    sub = getattr(st, fld, None)
+                    if isinstance(sub, list):
+                        sub = [h for h in sub]
+                        nested = in_nested or isinstance(st, (ast.For, ast.AsyncFor, ast.While))
+                        exits([x for x in sub if isinstance(x, ast.stmt)] + [y for x in sub if isinstance(x, ast.ExceptHandler) for y in x.body],
+                              nested if fld == 'body' else in_nested)
+
+        exits(lp.body)
+        run.check(not early, '%s: in dependent mode the request loop ends only by exhaustion or an exception, so that every later '
+                             'component\'s process_response is still queued after one completes the response' % tag, f,
+                  cfg.node(early[0][0]).ast if early and cfg.node(early[0][0]).ast is not None else lp.iter,
+                  where='%s:%s' % (f.file, cfg.node(early[0][0]).lineno if early else lp.lineno),
+                  runtime_witness='independent_middleware=False, component 1 completes the response in process_request, component 2 has only '
+                                  'process_response: it is never called')
+
     # REQ loop(s): PUSH after REQ in the same iteration, head insertion
     for nid in af.nodes_labelled('PUSH_OTHER'):
         run.fail('%s: dependent response stack must be head-inserted (response methods run bottom-up)' % tag, f, cfg.node(nid).ast)
@@ -306,6 +340,132 @@ def _insertions(f, name):
     return out
 
 
+class _Unevaluable(Exception):
+    pass
+
+
+def _distribution_table(run, f, roles, role_of, mode):
+    """Abstract evaluation of the per-component tail of prepare_middleware on
+    the 16 component shapes x modes: which stack receives what, where.
+    Returns {(has_req, has_res, has_resp, independent): set of events} or
+    raises _Unevaluable.  An event is (stack role, 'head'|'tail', item kind)."""
+    stack_role = {roles[0][0]: 'request', roles[1][0]: 'resource', roles[2][0]: 'response'}
+    loops = [n for n in walk_self(f.node) if isinstance(n, ast.For)
+             and any(isinstance(c, ast.Call) and isinstance(c.func, ast.Attribute) and isinstance(c.func.value, ast.Name)
+                     and c.func.value.id in stack_role and c.func.attr in ('append', 'insert') for c in walk_self(n))]
+    # the outermost loop that contains the insertions (the loop over components)
+    loops = [lp for lp in loops if not any(lp is not o and any(x is lp for x in walk_self(o)) for o in loops)]
+    if len(loops) != 1:
+        raise _Unevaluable('component loop not identified')
+    body = loops[0].body
+
+    def atom(e, env):
+        if isinstance(e, ast.Name):
+            if e.id == mode:
+                return env['mode']
+            r = role_of(e.id)
+            if len(r) == 1:
+                return env[next(iter(r))]
+        raise _Unevaluable('atom %s' % short(e))
+
+    def ev(e, env):
+        if isinstance(e, ast.Name):
+            return atom(e, env)
+        if isinstance(e, ast.UnaryOp) and isinstance(e.op, ast.Not):
+            return not ev(e.operand, env)
+        if isinstance(e, ast.BoolOp):
+            vals = [ev(v, env) for v in e.values]
+            return all(vals) if isinstance(e.op, ast.And) else any(vals)
+        if isinstance(e, ast.Compare) and len(e.ops) == 1 and isinstance(e.comparators[0], ast.Constant) and e.comparators[0].value is None \
+                and isinstance(e.ops[0], (ast.Is, ast.IsNot)):
+            v = atom(e.left, env)
+            return (not v) if isinstance(e.ops[0], ast.Is) else v
+        raise _Unevaluable('test %s' % short(e))
+
+    def has_insertion(st):
+        return any(isinstance(c, ast.Call) and isinstance(c.func, ast.Attribute) and isinstance(c.func.value, ast.Name)
+                   and c.func.value.id in stack_role for c in walk_self(st))
+
+    def always_exits(stmts):
+        for st in stmts:
+            if isinstance(st, (ast.Continue, ast.Raise, ast.Return, ast.Break)):
+                return True
+            if isinstance(st, ast.If) and st.orelse and always_exits(st.body) and always_exits(st.orelse):
+                return True
+        return False
+
+    def item_kind(e, env):
+        if isinstance(e, ast.IfExp):
+            return item_kind(e.body if ev(e.test, env) else e.orelse, env)
+        if isinstance(e, ast.Tuple):
+            return 'pair(%s)' % ','.join(item_kind(x, env) for x in e.elts)
+        if isinstance(e, ast.Name):
+            r = role_of(e.id)
+            if len(r) == 1:
+                return next(iter(r)).replace('process_', '')
+        raise _Unevaluable('item %s' % short(e))
+
+    def run_block(stmts, env, events):
+        """returns True when the iteration ended (continue/raise)"""
+        for st in stmts:
+            if isinstance(st, (ast.Continue, ast.Raise, ast.Return, ast.Break)):
+                return True
+            if isinstance(st, ast.If):
+                if has_insertion(st):
+                    br = st.body if ev(st.test, env) else st.orelse
+                    if run_block(br, env, events):
+                        return True
+                else:
+                    try:
+                        t = ev(st.test, env)
+                    except _Unevaluable:
+                        continue  # validation of the component (coroutine-ness...): assumed to pass
+                    br = st.body if t else st.orelse
+                    if br and always_exits(br):
+                        return True
+                continue
+            if isinstance(st, ast.Expr) and isinstance(st.value, ast.Call) and has_insertion(st):
+                c = st.value
+                if not (isinstance(c.func, ast.Attribute) and isinstance(c.func.value, ast.Name) and c.func.value.id in stack_role):
+                    raise _Unevaluable('statement %s' % short(st))
+                role = stack_role[c.func.value.id]
+                if c.func.attr == 'append' and len(c.args) == 1:
+                    events.append((role, 'tail', item_kind(c.args[0], env)))
+                elif c.func.attr == 'insert' and len(c.args) == 2 and isinstance(c.args[0], ast.Constant) and c.args[0].value == 0:
+                    events.append((role, 'head', item_kind(c.args[1], env)))
+                else:
+                    raise _Unevaluable('insertion %s' % short(c))
+                continue
+            if has_insertion(st):
+                raise _Unevaluable('insertion inside %s' % type(st).__name__)
+        return False
+
+    table = {}
+    for rq in (False, True):
+        for rs in (False, True):
+            for rp in (False, True):
+                for md in (False, True):
+                    env = {'process_request': rq, 'process_resource': rs, 'process_response': rp, 'mode': md}
+                    events = []
+                    run_block(body, env, events)
+                    table[(rq, rs, rp, md)] = sorted(events)
+    return table, loops[0]
+
+
+def _required_distribution(rq, rs, rp, md):
+    ev = []
+    if md:
+        if rq:
+            ev.append(('request', 'tail', 'request'))
+        if rp:
+            ev.append(('response', 'head', 'response'))
+    elif rq or rp:
+        ev.append(('request', 'tail', 'pair(request,response)'))
+    if rs:
+        ev.append(('resource', 'tail', 'resource'))
+    return sorted(ev)
+
+
 def r3_stacks(run):
     p = run.project
     f = p.func('falcon.app_helpers.prepare_middleware')
@@ -345,17 +505,49 @@ def r3_stacks(run):
                     r = implied(n.ast, l == 'T', is_mode)
                     if r is not None:
                         mode_edges[r].append((n.id, y, l))
+    # which component shape puts what on which stack: decided by evaluating the
+    # per-component statements on all 8 shapes x 2 modes (robust to restructuring)
+    def role_of0(name):
+        roles_ = set()
+        for a in walk_self(f.node):
+            if isinstance(a, (ast.Assign, ast.AnnAssign)) and a.value is not None:
+                tg = a.targets if isinstance(a, ast.Assign) else [a.target]
+                if not any(isinstance(t, ast.Name) and t.id == name for t in tg):
+                    continue
+                lits = {x.value for x in ast.walk(a.value) if isinstance(x, ast.Constant) and isinstance(x.value, str) and x.value.startswith('process_')}
+                roles_.update(l[:-len('_async')] if l.endswith('_async') else l for l in lits)
+        return roles_
+
+    table = None
+    try:
+        table, comp_loop = _distribution_table(run, f, roles, role_of0, mode)
+    except _Unevaluable as ex:
+        if not mode_edges[True] or not mode_edges[False]:
+            raise UnknownIdiom('prepare_middleware: distribution of component methods cannot be evaluated (%s) and there is no branch on the mode parameter' % ex)
+    if table is not None:
+        bad = [(k, got, _required_distribution(*k)) for k, got in sorted(table.items()) if got != _required_distribution(*k)]
+        if bad:
+            k, got, want_ = bad[0]
+            run.fail('prepare_middleware: a component with (request, resource, response) methods = %s in %s mode must contribute %s'
+                     % (tuple(int(x) for x in k[:3]), 'independent' if k[3] else 'dependent', want_ or 'nothing'), f,
+                     'distribution[req=%d,res=%d,resp=%d,independent=%d]' % tuple(int(x) for x in k), where=f.loc(comp_loop),
+                     witness=['contributes %s' % (got or 'nothing')] + ['%d of 16 shape/mode cells differ' % len(bad)],
+                     runtime_witness='a middleware component of that shape: its process_response (or process_request) is never called / called in the wrong mode')
+        else:
+            run.ok('prepare_middleware: 16 component-shape x mode cells distribute the methods as documented', f.loc(comp_loop), 'distribution table')
     if not mode_edges[True] or not mode_edges[False]:
-        raise AnchorError('prepare_middleware: no branch on the independent_middleware parameter')
+        if table is None:
+            raise AnchorError('prepare_middleware: no branch on the independent_middleware parameter')
+        mode_edges = None
     resp_name = roles[2][0]
     req_name = roles[0][0]
-    for kind, c in _insertions(f, resp_name):
+    for kind, c in (_insertions(f, resp_name) if mode_edges else []):
         nids = [n.id for n in cfg.live_nodes() if any(x is c for x in n.calls())]
         ok = bool(nids) and all(any(flow.dominated_by_edge(cfg, nid, e) for e in mode_edges[True]) for nid in nids)
         run.check(ok, 'prepare_middleware: the static response stack is filled only in independent mode '
                       '(in dependent mode the per-request stack must be the one that runs)', f, c,
                   runtime_witness='independent_middleware=False and a process_request that raises: later components\' process_response still run')
-    for kind, c in _insertions(f, req_name):
+    for kind, c in (_insertions(f, req_name) if mode_edges else []):
         is_pair = bool(c.args) and isinstance(c.args[-1], ast.Tuple)
         nids = [n.id for n in cfg.live_nodes() if any(x is c for x in n.calls())]
         want = not is_pair
@@ -767,6 +959,60 @@ def r8_decorable_names(run):
                   runtime_witness='@falcon.before(hook) on a class with on_%s: the hook never runs for that verb' % (missing[0].lower() if missing else 'x'))
 
 
+def r9_resource_from_route(run):
+    """Resource methods (process_resource) and the `resource` argument of
+    process_response are for ROUTED requests: the framework gates them on the
+    resource element that _get_responder returns.  That element is bound only
+    from the router's answer (or None): a sink or a static route serving the
+    request must not be reported as a resource, or every process_resource runs
+    for requests no route matched."""
+    p = run.project
+    f = p.func('falcon.app.App._get_responder')
+    run.use(f)
+    rets = [r for r in walk_self(f.node) if isinstance(r, ast.Return) and isinstance(r.value, ast.Tuple)]
+    if not rets:
+        raise AnchorError('_get_responder: no tuple return')
+    # position of the resource element: the name that the callers unpack third (responder, params, resource, uri_template)
+    res_names = set()
+    for r in rets:
+        if len(r.value.elts) < 3 or not isinstance(r.value.elts[2], ast.Name):
+            raise UnknownIdiom('_get_responder: return shape %s' % short(r.value))
+        res_names.add(r.value.elts[2].id)
+    # the router's answer: a local bound from self._router_search(...)
+    route_names = set()
+    for a in walk_self(f.node):
+        if isinstance(a, ast.Assign) and isinstance(a.value, ast.Call) and isinstance(a.value.func, ast.Attribute) \
+                and a.value.func.attr in ('_router_search', 'find'):
+            route_names |= {t.id for t in a.targets if isinstance(t, ast.Name)}
+    if not route_names:
+        raise AnchorError('_get_responder: router lookup not found')
+    n = 0
+    for a in walk_self(f.node):
+        tgts = []
+        if isinstance(a, ast.Assign):
+            for t in a.targets:
+                tgts += list(t.elts) if isinstance(t, (ast.Tuple, ast.List)) else [t]
+            val = a.value
+        elif isinstance(a, (ast.AnnAssign, ast.AugAssign)) and a.value is not None:
+            tgts, val = [a.target], a.value
+        elif isinstance(a, ast.NamedExpr):
+            tgts, val = [a.target], a.value
+        elif isinstance(a, (ast.For, ast.AsyncFor)):
+            tgts = list(a.target.elts) if isinstance(a.target, (ast.Tuple, ast.List)) else [a.target]
+            val = a.iter
+        else:
+            continue
+        if not any(isinstance(t, ast.Name) and t.id in res_names for t in tgts):
+            continue
+        n += 1
+        ok = (isinstance(val, ast.Constant) and val.value is None) or (isinstance(val, ast.Name) and val.id in route_names) \
+            or (isinstance(val, ast.Subscript) and isinstance(val.value, ast.Name) and val.value.id in route_names)
+        run.check(ok, '_get_responder binds the resource element of its answer only from the router\'s result (or None)', f, a,
+                  runtime_witness='a request served by a sink or static route: process_resource of every middleware component runs although no route matched')
+    if not n:
+        raise AnchorError('_get_responder: no binding of the resource element')
+
+
 def check(run):
     run.assume('user middleware does not mutate the prepared stacks at run time')
     run.assume('events of a call node are considered to have happened before its exceptional edge is taken')
@@ -777,4 +1023,5 @@ def check(run):
     run.rule('R5', r5_lifespan, 'lifespan handler sequencing', floor=10)
     run.rule('R7', r7_class_hooks, 'class-level hooks cover inherited responders', floor=4)
     run.rule('R8', r8_decorable_names, 'the responder-name pattern of class-level hooks covers every routable method', floor=1)
+    run.rule('R9', r9_resource_from_route, 'the resource handed to resource/response methods comes from the router only', floor=2)
     run.rule('R6', r6_wiring, 'registration order and mode wiring of the prepared stacks', floor=9)
